@@ -1,5 +1,6 @@
 """C15 — set-algebra identities across compositions (DESIGN §5 C15). Derived from the exactness of the single
 operations (C07/C08 tables re-run here) plus direct identity rows on the Boolean-algebra lifting for depth-2 trees."""
+from .. import invariant
 from .. import intervals, setalg
 from ..interp import Adt, Cell, Ctx, Inconclusive, Interp, ListV, Panic, Policy, Ptr, is_some
 from ..report import path_sig
@@ -9,6 +10,7 @@ from .common import blame_rows, interval_table, set_table
 
 def check(ctx, rep):
     prog = ctx.prog()
+    invariant.check_invariant(ctx, rep, prog, with_new=False)
     env = intervals.Env(prog)
     rows = intervals.table_new(prog, env)
     blame_rows(rep, "T-NEW", "range::BoundSet::new", rows, prog, env, 17, "results of set operations are valid intervals again")
